@@ -6,6 +6,7 @@ PYTHONPATH) and by the harness itself.  Nothing here imports labrea.
 from __future__ import annotations
 
 import functools
+import copy
 import json
 from typing import Any, Dict, List, Tuple
 
@@ -135,7 +136,8 @@ class Named:
 
     def __call__(self, *a, **k):
         if self.log:
-            CALL_LOG.append((self.name, a, k))
+            # (a snapshot: the body may edit its arguments in place afterwards)
+            CALL_LOG.append((self.name, copy.deepcopy(a), copy.deepcopy(k)))
         return self.fn(*a, **k)
 
     def __repr__(self):
@@ -151,7 +153,17 @@ class CustomError(Exception):
     pass
 
 
+class SubTypeError(TypeError):
+    """a user exception that derives from a built-in one"""
+
+
+class SubKeyError(KeyError):
+    pass
+
+
 EXC["CustomError"] = CustomError
+EXC["SubTypeError"] = SubTypeError
+EXC["SubKeyError"] = SubKeyError
 
 
 def make_fn(name: str, spec: Dict[str, Any] | None) -> Named:
@@ -177,9 +189,32 @@ def make_fn(name: str, spec: Dict[str, Any] | None) -> Named:
             return dec(spec.get("v"))
         if kind == "prim":
             return PRIMS[spec["p"]](*a)
+        if spec.get("mutates"):
+            # a body that edits what it was given, in place and at every depth (sort / pop / setdefault in real code)
+            res = App(name, copy.deepcopy(a), copy.deepcopy(k))
+            for x in list(a) + list(k.values()):
+                _scribble_in_place(x)
+            return res
         return App(name, a, k)
 
     return Named(name, body)
+
+
+def _scribble_in_place(x):
+    if isinstance(x, dict):
+        for kk in list(x):
+            if isinstance(x[kk], (dict, list)):
+                _scribble_in_place(x[kk])
+            else:
+                x[kk] = "scribbled"
+        x["scribbled-key"] = 1
+    elif isinstance(x, list):
+        for i in range(len(x)):
+            if isinstance(x[i], (dict, list)):
+                _scribble_in_place(x[i])
+            else:
+                x[i] = "scribbled"
+        x.append("scribbled")
 
 
 def _safe_eq(x, y):
